@@ -71,14 +71,20 @@ def documented_decode_error(e):
 def pack_hands_out_fresh_buffers(ctx, pack, expected, label="pack() hands out an independent buffer each time"):
     """what a caller does to one pack() result (appending a payload, overwriting an octet) must not leak into the object or
     into later results"""
-    r1 = pack()
+    e, r1 = call(pack)
+    if e is not None:
+        ctx.fail(label, "pack raised " + exc_name(e))
+        return
     try:
         r1.extend(b"\xa5\x5a\x00")
         if len(r1) > 3:
             r1[0] = r1[0] ^ 0xFF if not hasattr(r1[0], "e") else 0
     except (AttributeError, TypeError):
         pass            # immutable result: nothing the caller can do to it
-    r2 = pack()
+    e, r2 = call(pack)
+    if e is not None:
+        ctx.fail(label, "second pack raised " + exc_name(e))
+        return
     ctx.holds(label, r2 == expected, "second pack() returned %d octets, expected %d" % (len(r2), len(expected)))
 
 
@@ -89,7 +95,8 @@ def earlier_result_survives(ctx, check, later_decodes, label="an earlier decoded
             fn()
         except Exception:  # noqa: BLE001
             pass
-    ctx.holds(label, check())
+    e, ok = call(check)
+    ctx.holds(label, e is None and ok, exc_name(e))
 
 
 def en(ctx, enum_cls, x):
@@ -101,3 +108,19 @@ def en(ctx, enum_cls, x):
         return enum_cls(x)
     except ValueError:
         return x
+
+
+def decoded_object_owns_its_data(ctx, decode, items, check, flavours=("bytearray",), label="decoded object keeps its values when the caller reuses the input buffer"):
+    """decode from a mutable buffer (bytearray, optionally a memoryview of one), then overwrite the whole buffer as a receiver
+    re-using its receive buffer would, and re-assert the decoded fields"""
+    for fl in flavours:
+        buf = ctx.bytes_of(items, mutable=True)
+        arg = buf if fl == "bytearray" else ctx.view_of(buf)
+        e, u = call(decode, arg)
+        if e is not None:
+            ctx.fail("%s input refused" % fl, exc_name(e))
+            continue
+        for i in range(len(buf)):
+            buf[i] = 0xEE if i % 2 else 0x11
+        e2, ok = call(check, u)
+        ctx.holds("%s (%s input)" % (label, fl), e2 is None and ok, exc_name(e2))
